@@ -9,6 +9,6 @@ CONFIG = ledger_config("C03", ["Sky/Props/C03.lean", "Sky/Props/C31.lean"], dict
          "(block_txn_hours_partial). The unrestricted statement is false of code and model (block_txn_hours_counterexample, proved): "
          "known finding F14. The check evaluates the property's own predicate on every block the real node accepts.",
     note="partial: the block path's unchecked output-hours sum is a recorded finding (deliberate, consensus-critical); any other creation "
-         "of hours is reported as a violation. Non-arbitrating configuration in the proofs.",
+         "of hours is reported as a violation.",
     technique="Lean 4 proof (+ proved counterexample for the known finding) + differential correspondence with property predicate on accepted blocks",
 ), extra=dict(translators=["gosubset"]))
